@@ -36,7 +36,7 @@ def gen_element(r, used):
     if k < 0.6:
         ns = fresh(r.randint(1, 3))
         aq = r.choice(HALF + QUARTER)
-        lots = f'Lot {H.numstr(r, ns[0])}' if len(ns) == 1 else f'Lots {H.numstr(r, ns[0])} - {H.numstr(r, ns[-1])}'
+        lots = f'Lot {H.numstr(r, ns[0])}' if len(ns) == 1 else r.choice([f'Lots {H.numstr(r, ns[0])} - {H.numstr(r, ns[-1])}', f'Lot {ns[0]} - Lot {ns[-1]}', f'L{ns[0]} thru L{ns[-1]}', f'Lot {ns[0]} through Lot {ns[-1]}'])
         return f'{aq} of {lots}', 'lotdiv', False
     if k < 0.9:
         chain = ''.join(r.choice(['', '', ' of the ', ' ']).join([r.choice(HALF + QUARTER) for _ in range(r.randint(1, 2))] + [r.choice(QUARTER)]))
@@ -89,6 +89,10 @@ def run(tier, mode):
         if isinstance(whole, H.Exn) or any(isinstance(s_, H.Exn) for s_ in singles):
             fail('exception', detail, whole, 'no exception', None)
             continue
+        # an aliquot written directly before a lot group qualifies EVERY lot of the group (unless divisions are suppressed) -- also when the range repeats the word 'Lot'
+        for e, s_ in zip(els, singles):
+            if e[1] == 'lotdiv' and cfg != 'suppress_lot_divs' and not all(' of L' in x for x in s_['lots']):
+                fail('lot_division_incomplete', {'text': e[0], 'config': cfg}, s_['lots'], 'every lot of the group qualified by the aliquot')
         want_lots = sum((s_['lots'] for s_ in singles), [])
         want_qqs = sum((s_['qqs'] for s_ in singles), [])
         want_acres = {}
@@ -125,7 +129,8 @@ def run(tier, mode):
               ('N/2 of Lots 1 - 3 and Lot 5', None, ['N2 of L1', 'N2 of L2', 'N2 of L3', 'L5'], {}),
               ('N/2 of Lots 1 - 3 and Lot 5', 'suppress_lot_divs', ['L1', 'L2', 'L3', 'L5'], {}),
               ('Lot 7(40), NE/4 of Lot 8[160]; Lot 9', None, ['L7', 'NE of L8', 'L9'], {'L7': '40', 'L8': '160'}),
-              ('Lot 01(40.00)', None, ['L1'], {'L1': '40.00'}), ('Lot 1, Lot 02 [38.5]; NE/4', None, ['L1', 'L2'], {'L2': '38.5'}),
+              ('Lot 01(40.00)', None, ['L1'], {'L1': '40.00'}), ('N/2 of Lot 1 - Lot 3', None, ['N2 of L1', 'N2 of L2', 'N2 of L3'], {}),
+              ('N/2 of L1 thru L3, NE/4', None, ['N2 of L1', 'N2 of L2', 'N2 of L3'], {}), ('Lot 1, Lot 02 [38.5]; NE/4', None, ['L1', 'L2'], {'L2': '38.5'}),
               ('Lot \u0663(40)', None, ['L3'], {'L3': '40'}), ('N/2 of Lot 007(12.5)\nLot 8', None, ['N2 of L7', 'L8'], {'L7': '12.5'})]
     for text, cfg, lots, acres in direct:
         o = observe(pytrs, text, cfg)
